@@ -75,7 +75,8 @@ PROPS = {
                   "C06_joins_add_no_member", "C06_bitset_tracks_the_plain_set",
                   "C06_bitset_iteration_is_the_ascending_element_list",
                   "C06_combined_masks_stand_for_the_combined_membership",
-                  "C06_mask_iteration_yields_exactly_the_members_in_index_order"],
+                  "C06_mask_iteration_yields_exactly_the_members_in_index_order",
+                  "C06_the_layer_walk_over_a_joins_mask_yields_the_models_keys"],
         required="spec",
         nontrivial="history contains a join of at least two members that yields at least one item, over indices "
                    "on both sides of a layer boundary (64 / 4096) or with a negated / optional member",
